@@ -96,6 +96,8 @@ def io_setup(c, a):
     h4api.declare_all(L)
     L.H4_nccreate.restype = c_int
     L.H4_ncopen.restype = c_int
+    L.DFR8lastref.restype = ctypes.c_uint16
+    L.DFR8readref.argtypes = [ctypes.c_char_p, ctypes.c_uint16]
     c_int.in_dll(L, "H4_ncopts").value = 0      # netCDF-2 convention: errors are returned, not fatal
     os.chdir(c.dir)
     for f in ("DFSDclear", "DFR8restart", "DF24restart", "DFSDrestart"):
@@ -116,15 +118,40 @@ def io_writesds(c, a):
     nt = TY[ty][0]
     b = CBuf(len(raw), raw)
     r = 0
+    sc = list(a.get("scales") or [0] * len(shape))
+    unl = bool(a.get("unl"))
+
+    def scale_bytes(i):
+        return sds_bytes(ty, shape[i], (k + 3 + i) % 16)
     if api == "DFSD":
         L.DFSDclear()
-        if L.DFSDsetNT(nt) == FAIL or L.DFSDadddata(P(c), len(shape), i32arr(shape), b.ptr) == FAIL:
+        if L.DFSDsetNT(nt) == FAIL or L.DFSDsetdims(len(shape), i32arr(shape)) == FAIL:
+            r = FAIL
+        for i in range(len(shape)):
+            if sc[i]:
+                sb = CBuf(len(scale_bytes(i)), scale_bytes(i))
+                if L.DFSDsetdimscale(i + 1, shape[i], sb.ptr) == FAIL:
+                    r = FAIL
+                sb.free()
+        if L.DFSDadddata(P(c), len(shape), i32arr(shape), b.ptr) == FAIL:
             r = FAIL
     elif api == "SD":
         sd = L.SDstart(P(c), DFACC_RDWR)
-        s = L.SDcreate(sd, b"sds_k%d" % k, nt, len(shape), i32arr(shape)) if sd != FAIL else FAIL
+        cshape = list(shape)
+        if unl:
+            cshape[0] = 0
+        s = L.SDcreate(sd, b"sds_k%d" % k, nt, len(shape), i32arr(cshape)) if sd != FAIL else FAIL
         if s == FAIL or L.SDwritedata(s, i32arr([0] * len(shape)), None, i32arr(shape), b.ptr) == FAIL:
             r = FAIL
+        if s != FAIL:
+            for i in range(len(shape)):
+                if sc[i]:
+                    dm = L.SDgetdimid(s, i)
+                    L.SDsetdimname(dm, b"dim_k%d_%d" % (k, i))
+                    sb = CBuf(len(scale_bytes(i)), scale_bytes(i))
+                    if L.SDsetdimscale(dm, shape[i], nt, sb.ptr) == FAIL:
+                        r = FAIL
+                    sb.free()
         if s != FAIL and L.SDendaccess(s) == FAIL:
             r = FAIL
         if sd == FAIL or L.SDend(sd) == FAIL:
@@ -163,13 +190,29 @@ def io_listsds(c, a):
                 continue
             shape = list(dims)[:rank.value]
             ty = TYNAME.get(nt.value)
+            if L.SDiscoordvar(s):
+                L.SDendaccess(s)
+                continue
             if ty and 0 < prod(shape) < 100000:
                 sz = prod(shape) * struct.calcsize("=" + TY[ty][1])
                 b = CBuf(sz)
                 if L.SDreaddata(s, i32arr([0] * rank.value), None, i32arr(shape), b.ptr) != FAIL:
                     t2, k = recover_sds([ty], prod(shape), b.raw())
                     if k > 0:
-                        items.append({"shape": shape, "type": ty, "k": k})
+                        scs = []
+                        for i in range(rank.value):
+                            dm = L.SDgetdimid(s, i)
+                            dn, dsz, dnt, dna = create_string_buffer(300), c_int32(), c_int32(), c_int32()
+                            L.SDdiminfo(dm, dn, byref(dsz), byref(dnt), byref(dna))
+                            if dnt.value == 0:
+                                scs.append(0)
+                                continue
+                            st = TYNAME.get(dnt.value)
+                            sb = CBuf(shape[i] * struct.calcsize("=" + TY[st][1]) if st else 8)
+                            ok = st is not None and L.SDgetdimscale(dm, sb.ptr) != FAIL and sb.raw() == sds_bytes(st, shape[i], (k + 3 + i) % 16) and st == ty
+                            scs.append(1 if ok else -7777)
+                            sb.free()
+                        items.append({"shape": shape, "type": ty, "k": k, "scales": scs})
                 b.free()
             L.SDendaccess(s)
         L.SDend(sd)
@@ -190,7 +233,15 @@ def io_listsds(c, a):
                 if L.DFSDgetdata(P(c), rank.value, dims, b.ptr) != FAIL:
                     t2, k = recover_sds([ty], prod(shape), b.raw())
                     if k > 0:
-                        items.append({"shape": shape, "type": ty, "k": k})
+                        scs = []
+                        for i in range(rank.value):
+                            sb = CBuf(shape[i] * struct.calcsize("=" + TY[ty][1]))
+                            if L.DFSDgetdimscale(i + 1, shape[i], sb.ptr) == FAIL:
+                                scs.append(0)
+                            else:
+                                scs.append(1 if sb.raw() == sds_bytes(ty, shape[i], (k + 3 + i) % 16) else -7777)
+                            sb.free()
+                        items.append({"shape": shape, "type": ty, "k": k, "scales": scs})
                 b.free()
     return judged(c, items)
 
@@ -322,6 +373,20 @@ def io_listras(c, a):
             b, pb = CBuf(w.value * h.value), CBuf(768)
             if L.DFR8getimage(P(c), b.ptr, w.value, h.value, pb.ptr) != FAIL:
                 k = recover_img(w.value, h.value, 1, b.raw())
+                # the same image once more, into a buffer that is wider than the image (it is then placed in the
+                # upper left corner): the pixels must be the same
+                wide = w.value + max(1, w.value // 3)
+                L.DFR8readref(P(c), L.DFR8lastref())
+                w2, h2, isp2 = c_int32(), c_int32(), c_int32()
+                b2 = CBuf(wide * h.value)
+                if L.DFR8getdims(P(c), byref(w2), byref(h2), byref(isp2)) != FAIL and L.DFR8getimage(P(c), b2.ptr, wide, h.value, None) != FAIL:
+                    raw2 = b2.raw()
+                    rows = b"".join(raw2[y * wide:y * wide + w.value] for y in range(h.value))
+                    if rows != b.raw():
+                        k = -7776
+                else:
+                    k = -7775
+                b2.free()
                 if k > 0:
                     items.append({"dims": [w.value, h.value], "ncomp": 1, "k": k, "pal": recover_pal(pb.raw()) if isp.value else 0})
             b.free()
